@@ -14,7 +14,7 @@ CFG = dict(
          "and the whole output is compared with the Lean model. Non-trivial = at least one record was emitted; distinct by input line.",
     nontrivial=["records"],
     jobs=seeds(1, 3),
-    lean_files=["Trig", "Pipe", "PipeJudge", "C01", "C09", "Pipe1", "Pipe2", "Pipe3", "Pipe4", "Edge", "Level", "Auto", "Passes", "NoCrash", "EmtSafe", "TrigIdx"],
+    lean_files=["Trig", "Pipe", "PipeJudge", "C01", "C09", "Pipe1", "Pipe2", "Pipe3", "Pipe4", "Edge", "Level", "Auto", "Passes", "NoCrash", "EmtSafe", "TrigIdx", "Compose"],
     trusted_base=_PIPE_TB,
     assumptions=["blocks of one run carry contiguous frame numbers and one sample period (C03/C04 establish contiguity for the real sources)",
                  "C01_no_crash assumes what a data source guarantees of its blocks (one segment per channel, equal lengths, consecutive non-negative frame numbers) "
@@ -29,7 +29,7 @@ MANIFEST = dict(
          "(C01_block_exact, C01_records_exact, C01_run_exact); the run-time oracle chkRec accepts exactly such records (C01_oracle_sound); the edge/level/auto "
          "passes never index out of range (C01_no_crash_nonEMT), and NO operation sequence from the state PrepareRun leaves - ConfigureTriggers on any channels incl. "
          "edge-multi, ConfigurePulseLengths, group-trigger edits, data blocks of any lengths - makes the model panic: every search read, primary cut, broker look-up "
-         "and secondary (group-trigger) cut stays inside the buffers (C01_no_crash, invariant SrcSafe, Lemmas/NoCrash). The model is compared record-for-record with the real ProcessSegments pipeline on every run and "
+         "and secondary (group-trigger) cut stays inside the buffers (C01_no_crash, invariant SrcSafe, Lemmas/NoCrash); composed with the Abaco ingest model: the blocks the reader loop emits for ANY packet history (C03) are valid pipeline input, so the pipeline never panics on them whatever requests arrive in between (Compose.abaco_blocks_never_crash). The model is compared record-for-record with the real ProcessSegments pipeline on every run and "
          "the same oracle judges the real records against the ground-truth stream.",
     note="Trusted: Lean 4.33 kernel (axioms propext, Classical.choice, Quot.sound only; audited every run); the hand-written model is tied to the Go code only by "
          "differential testing with seeded generators (not a proof). 'Never crashes' is proved for the whole source model incl. edge-multi and secondary records (C01_no_crash). Decimation (unreachable from any API) is not modelled. Two crash defects found by "
@@ -43,6 +43,7 @@ THEOREMS = [
     ("DastardV.Props.C01", "DastardV.C01.C01_oracle_sound"),
     ("DastardV.Props.C01", "DastardV.C01.C01_no_crash_nonEMT"),
     ("DastardV.Props.C01", "DastardV.C01.C01_no_crash"),
+    ("DastardV.Lemmas.Compose", "DastardV.Compose.abaco_blocks_never_crash"),
     ("DastardV.Lemmas.NoCrash", "DastardV.Pipe.opBlock_safe"),
     ("DastardV.Lemmas.NoCrash", "DastardV.Pipe.runOps_safe"),
     ("DastardV.Lemmas.Pipe1", "DastardV.Trig.cut_exact"),
